@@ -113,13 +113,17 @@ class Recorder:
         def solve(prob, solver=None, **kw):
             k = len(rec.solves)
             snap = rec.snapshot(prob)
-            entry = dict(problem=snap, answer=None, fault=None)
+            # the time limit the back end is really given for this solve (PULP_CBC_CMD(timeLimit=...))
+            be = solver if solver is not None else getattr(prob, 'solver', None)
+            blim = getattr(be, 'timeLimit', None)
+            entry = dict(problem=snap, answer=None, fault=None,
+                         backend_limit=(None if blim is None else float(blim)))
             rec.solves.append(entry)
             fault = rec.faults.get(k)
             if fault is None and 'from' in rec.faults and k >= rec.faults['from']['k']:
                 fault = rec.faults['from']
             if rec.on_solve:
-                rec.on_solve(k, fault)
+                rec.on_solve(k, fault, entry['backend_limit'])
             if fault is None:
                 st = orig(prob, solver, **kw)
             else:
